@@ -39,10 +39,11 @@ Definition rdQ (rp : repr) (x : Q) : Q := x.
 Definition build (f : fin) : res (ofield Q) :=
   do r <- mk_region (i_p1 f) (i_p2 f) None (Some (i_units f)) default_tf;
   do m <- mk_mesh_n r (i_n f);
+  do vds <- field_vdims (i_nv f) (i_vdims f);     (* Field(..., vdims=...) *)
   OK (mkOF (mkMesh (reg m) (n m) (bc m)
                    (map (fun e => (fst e, mkRegion (fst (snd e)) (snd (snd e)) (dims r) (units r) (tf r)))
                         (i_subs f)))
-           (i_nv f) (i_vdims f) (i_unit f) (i_vals f)).
+           (i_nv f) vds (i_unit f) (i_vals f)).
 
 Definition opt_eqb {A} (eqb : A -> A -> bool) (a b : option A) : bool :=
   match a, b with Some x, Some y => eqb x y | None, None => true | _, _ => false end.
